@@ -9,6 +9,8 @@ import regen
 import layout
 import modgen
 import disref
+import distok
+import corr
 import spirvgen as sg
 import streams
 from props import c01, c02
@@ -88,11 +90,39 @@ def run(rep):
             data = b"".join(w.to_bytes(4, "little") for w in words)
             lines.append("libdis " + data.hex())
             meta.append((desc, insts, bound, version))
-        files, err = streams.serve_both("c07", lines, p.exe, None)
+        mexe, merr = corr.build_modelrun()
+        files, err = streams.serve_both("c07", lines, p.exe, mexe)
         if files is None:
             ok, info = False, {"lemma": "harness run", "error": err}
         else:
             il = streams.read_lines(files[1])
+            ml = streams.read_lines(files[2]) if mexe else []
+            if mexe is None and ok:
+                ok, info = False, {"lemma": "modelrun build", "error": merr}
+            # correspondence: the token-level Coq model against the text the real disassembler printed
+            mism = []
+            for (desc, insts, bound, version), got, mgot in zip(meta, il, ml):
+                if got.startswith("ERR:") or got.startswith("PANIC:load"):
+                    if mgot != "NOLOAD" and not got.startswith("PANIC"):
+                        mism.append({"module": insts, "impl": got[:80], "model": mgot[:80], "why": "the implementation rejects the binary, the model loads it"})
+                    continue
+                if got.startswith("PANIC"):
+                    if mgot != "PANIC":
+                        mism.append({"module": insts, "impl": got[:80], "model": mgot[:80], "why": "the implementation panics, the model does not"})
+                    continue
+                if not mgot.startswith("OK "):
+                    mism.append({"module": insts, "impl": got[:80], "model": mgot[:80], "why": "the model does not produce a disassembly"})
+                    continue
+                parts = got.split(" ")
+                text = bytes.fromhex(parts[0][3:]).decode("utf-8") if parts[0][3:] != "-" else ""
+                own = [bytes.fromhex(x).decode("utf-8") for x in parts[3][2:].split(",")] if len(parts) > 3 and parts[3][2:] else []
+                d = distok.compare(mgot, text, own)
+                if d:
+                    mism.append({"module": insts, "impl": text[:600], "model": mgot[:600], "why": d})
+            rep.cov["model_correspondence"] = {"cases": len(ml), "mismatches": len(mism)}
+            if mism and ok:
+                ok = False
+                info = {"lemma": "correspondence stream c07 (Module::disassemble vs token-level Coq model)", "error": json.dumps(mism[0])[:1500]}
             nt = set()
             for (desc, insts, bound, version), got in zip(meta, il):
                 if got.startswith("ERR:"):
